@@ -195,7 +195,11 @@ func (con *Connection) Close() error {
 	log.Debug.Println("Close connection and remove session")
 
 	// Remove session from the context
-	con.context.DeleteSessionForConnection(con.connection)
+	// Sessions are stored by remote address. When a newer connection from the same
+	// address and port replaced the session, that session must stay.
+	if s := con.context.GetSessionForConnection(con.connection); s != nil && s.Connection() == net.Conn(con) {
+		con.context.DeleteSessionForConnection(con.connection)
+	}
 
 	return con.connection.Close()
 }
